@@ -247,7 +247,6 @@ func vpH_C14_embedded_url() {
 	vpReach("end")
 }
 
-// thorough: everything varied together on two segments and two pairs
 func vpT_C14_full() {
 	// everything varied together, on at most one segment and one query pair per side (two of each did
 	// not finish in 15 minutes)
@@ -257,10 +256,6 @@ func vpT_C14_full() {
 	pb := vpIRIParts{scheme: vpChoice(2), host: vpLetterCase(), port: vpChoice(2), segs: vpSegs(vpChoice(2)), trailing: vpBool(), qk: kb, qv: vb}
 	vpC14Laws(pa, pb, vpBool())
 }
-	pb := vpIRIParts{scheme: vpChoice(2), host: vpLetterCase(), port: vpChoice(2), segs: vpSegs(vpChoice(3)), trailing: vpBool(), qk: kb, qv: vb, swapQ: vpBool()}
-	vpC14Laws(pa, pb, vpBool())
-}
-
 func vpW_C14_twin() {
 	pa := vpIRIParts{host: vpLetterCase(), segs: vpSegs(1)}
 	_ = IRI(pa.String()).Equals("https://a.ex/a", true)
